@@ -1207,3 +1207,32 @@ impl Drop for Sim {
         }
     }
 }
+
+// ------------------------------------------------------------------------------------------------
+// Availability (the accept thread's 512 cached bits): thin public probe for the conformance driver
+// ------------------------------------------------------------------------------------------------
+pub struct AvailProbe(crate::availability::Availability);
+
+impl Default for AvailProbe {
+    fn default() -> Self {
+        Self::new()
+    }
+}
+
+impl AvailProbe {
+    pub fn new() -> Self {
+        AvailProbe(crate::availability::Availability::default())
+    }
+    pub fn set(&mut self, idx: usize, avail: bool) {
+        self.0.set_available(idx, avail)
+    }
+    pub fn get(&self, idx: usize) -> bool {
+        self.0.get_available(idx)
+    }
+    pub fn any(&self) -> bool {
+        self.0.available()
+    }
+    pub fn offset(idx: usize) -> (usize, usize) {
+        crate::availability::Availability::offset(idx)
+    }
+}
